@@ -39,6 +39,9 @@ pub struct Case {
   pub conv: Conv,
   pub steps: Vec<Step>,
   pub threads: bool,
+  /// another subscriber of the same subject, subscribed before the conversion:
+  /// 0 none, 1 unsubscribed at once (a closed entry ahead of the conversion), 2 stays
+  pub bystander: u8,
 }
 
 fn script_of(c: &Case) -> Vec<N> {
@@ -74,6 +77,14 @@ macro_rules! drive {
   ($subj:ty, $c:expr) => {{
     let c: &Case = $c;
     let mut subj = <$subj>::default();
+    let _bystander = match c.bystander {
+      0 => None,
+      1 => {
+        subj.clone().actual_subscribe(Probe::new(900, &Log::new())).unsubscribe();
+        None
+      }
+      _ => Some(subj.clone().actual_subscribe(Probe::new(900, &Log::new()))),
+    };
     let script = script_of(c);
     let term_pos = c.steps.iter().position(|s| matches!(s, Step::Ev(n) if n.is_terminal()));
     let cw = Arc::new(CountWaker(AtomicUsize::new(0)));
@@ -247,9 +258,13 @@ macro_rules! drive {
             None
           }
         };
+        let mut injected: Vec<N> = vec![];
         for (i, s) in c.steps.iter().enumerate() {
           match s {
-            Step::Ev(n) => inject(&mut subj, n),
+            Step::Ev(n) => {
+              inject(&mut subj, n);
+              injected.push(n.clone());
+            }
             Step::Poll => {
               polls.push((i, format!("closed={}", status.is_closed())));
             }
@@ -257,6 +272,12 @@ macro_rules! drive {
           if let Some(w) = check(&status, &log.notes(1)) {
             if violation.is_none() {
               violation = Some(("wrong_status".into(), w));
+            }
+          }
+          // ... and with what the source was told (its calls have returned)
+          if let Some(w) = check(&status, &injected) {
+            if violation.is_none() {
+              violation = Some(("wrong_status".into(), format!("{} (the source's calls so far: {:?})", w.replace("the subscriber saw", "the source did"), injected)));
             }
           }
         }
@@ -375,7 +396,7 @@ pub fn random_case(r: &mut Rng, max_items: usize) -> Case {
   for _ in 0..r.below(3) {
     steps.push(Step::Poll);
   }
-  Case { conv, steps, threads: r.chance(1, 2) }
+  Case { conv, steps, threads: r.chance(1, 2), bystander: [0, 0, 1, 2][r.below(4)] }
 }
 
 pub fn run(cfg: &Cfg, rep: &mut Report) {
@@ -521,6 +542,10 @@ fn race_case(r: &mut Rng) -> Option<(String, String, serde_json::Value, bool)> {
   let n_items = r.below(4);
   let error = r.chance(1, 3);
   let mut subj = SubjectThreads::<V, E>::default();
+  if r.chance(1, 4) {
+    // a closed entry ahead of the conversion in the subject's list
+    subj.clone().actual_subscribe(Probe::new(900, &Log::new())).unsubscribe();
+  }
   let prev = crate::conc::mode();
   crate::conc::set_mode(if r.chance(1, 2) { crate::conc::FREE } else { crate::conc::OFF });
   let items: Vec<V> = (0..n_items).map(|i| V::I(10 + i as i64)).collect();
@@ -538,6 +563,32 @@ fn race_case(r: &mut Rng) -> Option<(String, String, serde_json::Value, bool)> {
           Err(ObservableError::Empty) => "empty".into(),
           Err(ObservableError::MultipleValues) => "multiple".into(),
         });
+      });
+    }
+    Conv::Stream if r.chance(1, 2) => {
+      // busy-polling consumer: polls land inside the producer's calls
+      name = "to_stream";
+      let mut st = Box::pin(subj.clone().to_stream());
+      std::thread::spawn(move || {
+        let cw = Arc::new(CountWaker(AtomicUsize::new(0)));
+        let w = waker(cw.clone());
+        let mut cx = Context::from_waker(&w);
+        let mut all: Vec<String> = vec![];
+        let t0 = std::time::Instant::now();
+        loop {
+          match Stream::poll_next(st.as_mut(), &mut cx) {
+            Poll::Ready(Some(Ok(v))) => all.push(format!("{}", v.int())),
+            Poll::Ready(Some(Err(e))) => all.push(format!("e{}", e)),
+            Poll::Ready(None) => break,
+            Poll::Pending => {
+              if t0.elapsed() > Duration::from_secs(25) {
+                return; // the main thread reports the hang
+              }
+              std::hint::spin_loop();
+            }
+          }
+        }
+        let _ = tx.send(all.join(","));
       });
     }
     Conv::Stream => {
